@@ -79,13 +79,15 @@ impl<T: Types> FlushWorker<T> {
     /// When starting, there is at most one open chunk file that is not sync.
     pub(crate) fn spawn(self) {
         #[cfg(feature = "verif-hooks")]
-        crate::verif_hooks::at("worker.spawn", 0);
+        let verif_worker_id = crate::verif_hooks::next_id();
+        #[cfg(feature = "verif-hooks")]
+        crate::verif_hooks::at("worker.spawn", verif_worker_id);
         std::thread::Builder::new()
             .name("raft_log_wal_flush_worker".to_string())
             .spawn(move || {
                 #[cfg(feature = "verif-hooks")]
                 let _verif_exit_guard = {
-                    crate::verif_hooks::at("worker.start", 0);
+                    crate::verif_hooks::at("worker.start", verif_worker_id);
                     crate::verif_hooks::ExitGuard {
                         point: "worker.exit",
                         a: 0,
